@@ -1,3 +1,4 @@
+import AquaVerif.Proofs.RunLiftSum
 import AquaVerif.Proofs.Day
 import AquaVerif.Proofs.Clock
 import AquaVerif.Proofs.Summary
@@ -279,5 +280,76 @@ theorem full_day_seasonal_total_step {α : Type} [Field α] [LinearOrder α] [Is
     (D.gs = true → P.W.irr.method = 4 →
       r.irrTot = r.state.irrNetCum ∧ r.irrTot = st.irrNetCum + r.flux.irrDay) ∧
     (D.gs = false → r.irrTot = 0 ∧ r.flux.irrDay = 0) := fullDay_irrTot h
+
+/-! ### every run (`Proofs/RunLiftSum.lean`) -/
+
+section run
+variable {α : Type} [Field α] [LinearOrder α] [IsStrictOrderedRing α]
+  {F : Fn α} {T : TrigFn α} {cfg : RunCfg α} {s : RunState α}
+
+/-- **Run level (a).** For every row of the summary table of every reachable state of every run,
+the seasonal irrigation `IrrTot` equals the sum of the daily irrigation column of the `water_flux`
+table over the rows of that season up to (and including) the row's harvest step.  Premises: a
+`Valid` clock, the initial season flags cleared, both initial counters 0.
+(With the off-season simulated, rows of the same season *after* the harvest step can carry
+irrigation: `RunLiftExample.post_harvest_irrigation`.) -/
+theorem run_seasonal_irrigation_is_sum_of_daily_column (hv : Valid cfg.clock) (hi : InitOK cfg)
+    (h0 : InitIrr0 cfg) (hr : RunReach F T cfg s) :
+    ∀ x ∈ s.summaryTable,
+      x.irrTot = ((s.fluxTable.filter
+        (fun f => decide (f.season = x.season) && decide (f.tsc ≤ x.tsc))).map (·.irrDay)).sum :=
+  run_summary_irrigation hv hi h0 hr
+
+/-- **Run level (b).** Every summary row repeats the yields of the `crop_growth` row of its harvest
+step, and that is the only `crop_growth` row with that step. -/
+theorem run_summary_row_repeats_harvest_day (hw : WF cfg.clock) (hi : InitOK cfg)
+    (hr : RunReach F T cfg s) :
+    ∀ x ∈ s.summaryTable,
+      (∃ g ∈ s.growthTable, g.season = x.season ∧ g.tsc = x.tsc ∧ x.dryYield = g.dryYield ∧
+        x.freshYield = g.freshYield ∧ x.yieldPot = g.yieldPot) ∧
+      (∀ g ∈ s.growthTable, g.tsc = x.tsc → g.season = x.season ∧ x.dryYield = g.dryYield ∧
+        x.freshYield = g.freshYield ∧ x.yieldPot = g.yieldPot) :=
+  fun x hx => ⟨run_summary_yields hr x hx, run_summary_yields_unique hw hi hr x hx⟩
+
+/-- **Run level (c).** The summary rows are in strictly increasing season order (at most one per
+season); a season has a row with step `t` exactly when `t` is the first recorded day of that season
+on which the end-of-season condition held. -/
+theorem run_one_row_per_season_in_order (hw : WF cfg.clock) (hi : InitOK cfg)
+    (hr : RunReach F T cfg s) :
+    (s.summaryTable.map (·.season)).Pairwise (· < ·) ∧
+    ∀ (k : Int) (t : Nat), (∃ x ∈ s.summaryTable, x.season = k ∧ x.tsc = t) ↔
+      ∃ d ∈ s.daysRev, d.D.season = k ∧ d.D.tsc = t ∧ d.r.endc = true ∧
+        ∀ d' ∈ s.daysRev, d'.D.season = k → d'.r.endc = true → t ≤ d'.D.tsc :=
+  ⟨run_summary_rows hw hi hr, run_summary_iff hw hi hr⟩
+
+/-- **Run level (c).** Under a `Valid` clock every season that has been left has its row, written
+at the latest on the day before the season's latest harvest date. -/
+theorem run_every_completed_season_has_a_row (hv : Valid cfg.clock) (hi : InitOK cfg)
+    (hr : RunReach F T cfg s) :
+    (∀ k : Nat, (k : Int) < s.season → ∃ x ∈ s.summaryTable, x.season = k) ∧
+    (∀ x ∈ s.summaryTable, (x.tsc : Int) + 1 ≤ cfg.clock.hv x.season.toNat) :=
+  run_summary_complete hv hi hr
+
+/-- **Run level (d).** The daily identities on every recorded day of every run — no premise. -/
+theorem run_daily_yield_identities (hr : RunReach F T cfg s) :
+    ∀ d ∈ s.daysRev,
+      d.r.growth.yieldPot = (d.r.growth.biomassNS / 100) * d.r.growth.hi ∧
+      (d.D.gs = true →
+        d.r.growth.dryYield = (d.r.growth.biomass / 100) * d.r.growth.hiAdj ∧
+        d.r.growth.freshYield = d.r.growth.dryYield / (d.P.cx.yldWC / 100) ∧
+        d.r.growth.biomass = d.st.biomass +
+          bioWPadj d.P.cx.bio (natNum d.r.growth.dap) d.r.state.delayedCds d.r.state.hiRef
+            d.r.state.pctLagPhase * (d.r.flux.tr / d.D.et0) ∧
+        d.r.growth.biomassNS = d.st.biomassNS +
+          bioWPadj d.P.cx.bio (natNum d.r.growth.dap) d.r.state.delayedCds d.r.state.hiRef
+            d.r.state.pctLagPhase * (d.r.water.trPotNS / d.D.et0)) ∧
+      (d.D.gs = false → d.r.growth.dryYield = 0 ∧ d.r.growth.freshYield = 0 ∧
+        d.r.growth.yieldPot = 0 ∧ d.r.growth.biomass = 0 ∧ d.r.flux.irrDay = 0) ∧
+      (d.r.state.yieldPot = d.r.growth.yieldPot ∧ d.r.state.dryYield = d.r.growth.dryYield ∧
+        d.r.state.freshYield = d.r.growth.freshYield ∧ d.r.state.biomass = d.r.growth.biomass ∧
+        d.r.state.biomassNS = d.r.growth.biomassNS) :=
+  run_daily_identities hr
+
+end run
 
 end Aqua.C06
